@@ -15,10 +15,20 @@ def _sig(ops, io, mo, k):
             "model": (mo[k] if k < len(mo) else "<missing>").split(" ", 1)[0]}
 
 
+def _sig_sys(seg, impl, ver, k):
+    verdict = ver[k] if k < len(ver) else "<missing>"
+    net = next((l for l in seg if l.startswith("note net")), "")
+    outage = any(l.startswith("note deadline") for l in seg)
+    return {"verdict": verdict.split("-")[0], "line": (seg[k] if k < len(seg) else "").split(" ")[0],
+            "hit_deadline": outage}
+
+
 CFG = PropCfg(
     "C08", "HopModel.Props.C08",
     [SuiteCfg("C08", nontrivial=_nontrivial, signature=_sig,
-              classify=lambda op, out: op.split(" ", 1)[0] + "->" + out.split(" ", 1)[0][:5])],
+              classify=lambda op, out: op.split(" ", 1)[0] + "->" + out.split(" ", 1)[0][:5]),
+     SuiteCfg("C08sys", kind="monitor", signature=_sig_sys, parts_thorough=4, timeout=1500,
+              nontrivial=lambda seg, ver: any(l.startswith("eof") for l in seg))],
     rule="suite C08: a case is one arrival schedule on a bare tubes.receiver (new rx; rcv/read ...) or one "
          "write/ack/fin sequence on a bare tubes.sender (new tx; ...), stepped through verif hooks and "
          "compared line by line with the Lean models (result, ackNo, windowStart, fragment count, buffered "
@@ -28,7 +38,12 @@ CFG = PropCfg(
          "out-of-window frames (window edges 999..1002), frames half a number range away, keep-alives, data "
          "frames carrying ACK; positions around k*2^32 and 2^31; every 25th case is a malformed stream. "
          "distinct_nontrivial counts distinct cases in which something was rejected, a FIN was processed or "
-         "an acknowledgement was handled.",
+         "an acknowledgement was handled. suite C08sys (monitor): a case is one run of two real muxers over an "
+         "in-memory MsgConn pair with seeded loss (0-20%), duplication (0-20%), delay/reordering (0-30% of "
+         "datagrams, up to 120 ms) and outages (quick: 0.2-1.5 s, thorough: also 12.5-15 s), 1-3 reliable tubes, "
+         "both directions writing 1..6 chunks of 1..40000 bytes and closing; the trace written/read/closed/eof is "
+         "checked by the Lean monitor: prefix at every read, EOF only after everything written, everything "
+         "delivered before a deadline of 90-150 s.",
     assumptions=["arriving frames are honest (authenticated channel) and less than 2^31 frame numbers away from the "
                  "receiver's acknowledgement number (hypotheses Honest, Near of the theorems)",
                  "fewer than 2^62 frames per stream (no uint64 overflow)",
